@@ -5,7 +5,7 @@
   lemmas: TmVerif/Sched/{Reach, InvCap, InvCapPrim, InvCapOps}.lean.
   The unit-spelling clause (1G = 1024M, 100% = 100) is in TmVerif/Props/C01Units.lean.
 -/
-import TmVerif.Sched.InvCapOps
+import TmVerif.Sched.Cons
 
 namespace TmVerif.Sched
 
@@ -49,6 +49,21 @@ theorem C01_views (r l : Nat) (ops : List Op) (c : Cell)
     (this is the step used by the two theorems above, exported for the master-level model). -/
 theorem C01_cycle (c c' : Cell) (qs : List (List (Nat × Bool))) (ch : List Nat)
     (hc : InvCap c) (h : schedule c qs ch = .ok c') : InvCap c' := invCap_schedule hc h
+
+/-- **C01 (after every cycle).** After a cycle every placed instance names an existing server, and
+    that server lists the instance — so each scheduled instance is on at most one server and the
+    two views agree exactly, with no dangling placement left. -/
+theorem C01_after_cycle (c c' : Cell) (qs : List (List (Nat × Bool))) (ch : List Nat)
+    (hc : InvCap c) (h : schedule c qs ch = .ok c') :
+    InvCap c' ∧ ∀ a ∈ c'.apps, ∀ sid, a.server = some sid → ∃ s ∈ c'.srvs, s.id = sid ∧ a.id ∈ s.apps := by
+  have hc' : InvCap c' := invCap_schedule hc h
+  refine ⟨hc', ?_⟩
+  intro a ha sid hsv
+  have hlook : c'.app? a.id = some a := by
+    unfold Cell.app?; exact find?_key_unique (·.id) c'.apps hc'.appIds a ha
+  obtain ⟨s, hs, _⟩ := consOk_schedule hc h a.id a sid hlook hsv
+  refine ⟨s, srv?_mem hs, srv?_id hs, ?_⟩
+  exact (hc'.views s (srv?_mem hs) a.id).mpr ⟨a, ha, rfl, by rw [hsv, srv?_id hs]⟩
 
 /-! ### Non-vacuity: a concrete history with capacity pressure (eviction) completes and
     satisfies the guards. -/
